@@ -21,6 +21,9 @@ class Ty(object):
         if k == 'Val': return Val
         if k == 'Obj': return ObjSort(self.args[0])
         if k == 'List': return z3.SeqSort(self.args[0].sort())
+        if k == 'Tuple':
+            from .symexec import TupleSort
+            return TupleSort([a.sort() for a in self.args])
         raise Unsupported('no sort for %r' % self)
 
 class _T(object):
@@ -37,6 +40,8 @@ class _T(object):
     def Opt(t): return Ty('Opt', t)              # value or None, decided by a ghost boolean
     @staticmethod
     def Tuple(*ts): return Ty('Tuple', *ts)
+    @staticmethod
+    def Set(k): return Ty('Set', k)
     @staticmethod
     def FnOrDict(k, v): return Ty('FnOrDict', k, v)
     @staticmethod
@@ -102,6 +107,18 @@ class SymDict(V):
     """finite map with symbolic keys: has : K -> Bool, get : K -> V (z3 arrays), plus key sort/elem types"""
     def __init__(self, has, get, kty, vty): self.has, self.get, self.kty, self.vty = has, get, kty, vty
 
+class SymSet(V):
+    """set with symbolic members: has : K -> Bool"""
+    def __init__(self, has, kty): self.has, self.kty = has, kty
+
+class PySet(V):
+    """freshly created empty set (becomes a SymSet once its element type is known)"""
+    def __init__(self): pass
+
+class TupTerm(V):
+    """tuple as one z3 datatype term (dict/set keys, elements of sorted key sequences)"""
+    def __init__(self, z, tys): self.z, self.tys = z, tys
+
 class Dual(V):
     """an attribute used by some callers as a callable and by others as a dict of callables
     (EAMPotential.electronDensityFunction): both views are carried"""
@@ -163,11 +180,12 @@ def wrap(ty, z):
     if k == 'Obj': return Obj(z, ty.args[0])
     if k == 'List': return SeqV(z, ty.args[0])
     if k == 'Val': return Sc(z, 'val')
+    if k == 'Tuple': return TupTerm(z, ty.args)
     raise Unsupported('wrap %r' % ty)
 
 def unwrap(v):
     """value -> z3 term (for contract namespaces and for storing into sequences)"""
-    if isinstance(v, (Sc, Text, Obj, FnV, SeqV, DocObj)): return v.z
+    if isinstance(v, (Sc, Text, Obj, FnV, SeqV, DocObj, TupTerm)): return v.z
     if isinstance(v, PyStr): return z3.StringVal(v.s)
     if isinstance(v, PyList) or isinstance(v, Tup):
         items = [unwrap(i) for i in v.items]
